@@ -104,6 +104,22 @@ pub fn main(o: &Opts) -> i32 {
             "MATCH (a)-[e]->(b), (b)-[f]->(c) WHERE a.k > 0 RETURN id(a), id(c)",
             "MATCH (a)-[e]->(b) WHERE a.k > 1 AND b.s = 'a' RETURN a.s, count(b)",
             "UNWIND [1, 2, 3] AS x MATCH (a) WHERE a.k = x RETURN x, id(a)",
+            // a WITH that re-binds a name bound further down: the WHERE of the WITH sees the new binding
+            "MATCH (a)-[e]->(b) WITH b AS a WHERE a.k > 1 RETURN id(a)",
+            "MATCH (a)-[e]->(b) WITH b AS a WHERE a.s = 'a' RETURN id(a)",
+            "MATCH (a)-[e]->(b) WITH b AS a, a AS b WHERE a.k > b.k RETURN id(a), id(b)",
+            "MATCH (a)-[e]->(b) WITH a.k AS k, b WHERE k > 1 RETURN k, id(b)",
+            "MATCH (a)-[e]->(b) WITH b.k AS k, a AS b WHERE b.k > 1 RETURN k, id(b)",
+            // filters above aggregation / distinct / limit stay there
+            "MATCH (a)-[e]->(b) WITH a, count(b) AS c WHERE c > 1 RETURN id(a), c",
+            "MATCH (a)-[e]->(b) WITH DISTINCT b WHERE b.k > 0 RETURN id(b)",
+            "MATCH (a) WITH a ORDER BY id(a) LIMIT 3 WHERE a.k > 1 RETURN id(a)",
+            "UNWIND [1, 2, 3] AS x WITH x WHERE x > 1 MATCH (a) WHERE a.k = x RETURN x, id(a)",
+            // patterns spread over several MATCH clauses, paths, subqueries
+            "MATCH (a) MATCH (b), (c) WHERE a.k = b.k AND b.k = c.k AND id(b) < id(c) RETURN id(a), id(b), id(c)",
+            "MATCH (a)-[e]->(b) MATCH (b)-[f]->(c) WHERE a.k < c.k RETURN id(a), id(c)",
+            "MATCH p = (a)-[*1..2]->(b) WHERE length(p) > 1 RETURN id(a), id(b)",
+            "MATCH (a) WHERE EXISTS { MATCH (a)-[e]->(b) WHERE b.k > 1 } RETURN id(a)",
         ];
         for g in graphs.iter().filter(|g| g.nnodes <= 100) {
             for lang in ["gql", "cypher"] {
